@@ -63,7 +63,7 @@ def r01_1(prog, rep, tier):
         f = fl[fq]
         rrp = f.params[2]["n"]
         tgt = f.params[0]["n"]
-        inf = Influence(prog, f, rrp, summaries)
+        inf = Influence(prog, f, rrp, summaries, opaque_calls={g_.name for g_ in fillers.fillers(prog) if g_.name != f.name})
         stores = {(b, i) for b, i, idx, x, line in fillers.tgt_stores(f)}
         # delegation: a returned call to another filler also is an output
         rets = set()
@@ -73,7 +73,7 @@ def r01_1(prog, rep, tier):
                     if c.get("fn", "").startswith("rrul_fill_"):
                         rets.add((b, i))
         rel = inf.slice(lambda b, i, x: (b, i) in stores)
-        routes = [("own stores", {r.split("->", 1)[1] for r in rel if r.startswith(rrp + "->")} | ({"$proto"} if (tgt in rel or "proto" in rel) else set()))]
+        routes = [("own stores", {r.split("->", 1)[1] for r in rel if r.startswith(rrp + "->")} | ({"$proto"} if (tgt in rel or any(r_.split("#")[0] == "proto" for r_ in rel)) else set()))]
         # delegation is a second output route: the part must influence the delegate's stores as well
         for b, i, x, line in f.cfg.all_elems():
             for c in calls(f.cfg.resolve(x)) if isinstance(x, dict) else []:
@@ -91,7 +91,7 @@ def r01_1(prog, rep, tier):
                         if fx[0] == "false" and "_has_bits_p(" in fx[1] and (rrp + "->") in fx[1]:
                             exempt.add(fx[1].split(rrp + "->", 1)[1].rstrip(")").split(")")[0])
                     routes.append(("delegate " + g.name, {r.split("->", 1)[1] for r in grel if r.startswith(gp + "->")} | exempt |
-                                   ({"$proto"} if (g.params[0]["n"] in grel or "proto" in grel) else set())))
+                                   ({"$proto"} if (g.params[0]["n"] in grel or any(r_.split("#")[0] == "proto" for r_ in grel)) else set())))
         fields = set.intersection(*(r[1] for r in routes))
         if tgt in rel or "proto" in rel:
             rel = set(rel)
